@@ -125,15 +125,14 @@ class System:
     def _new_obj(self, name, deps):
         t = asyncio.current_task()
         if t not in self.task_proc:
-            who = self.current_begin
-            if self.same_run:
-                # one run, several step workers: the worker task's coroutine (control_loop._run_worker) closes over
-                # the command naming its step; read for attribution only
-                try:
-                    step_name = t.get_coro().cr_frame.f_locals["command"].step_name
-                    who = self.procs[int(step_name[1:]) - 1]
-                except Exception:
-                    who = None
+            # the worker task's coroutine (control_loop._run_worker) closes over the command naming its step,
+            # and step s<k> belongs to invocation k; read for attribution only.  Fallback: the invocation begun
+            # by the command being applied.
+            try:
+                step_name = t.get_coro().cr_frame.f_locals["command"].step_name
+                who = self.procs[int(step_name[1:]) - 1]
+            except Exception:
+                who = self.current_begin
             if who is None:
                 self.anomalies.append("factory %s called from a task that cannot be attributed" % name)
             self.task_proc[t] = who
@@ -194,7 +193,7 @@ class System:
             if e is None:
                 return "lost"
             return "error" if self._is_cycle(e) else "failed"
-        return "stuck"
+        return "waiting"          # begun, not suspended in a factory, not finished: waits for someone else
 
     @staticmethod
     def _is_cycle(e):
